@@ -16,10 +16,12 @@
   always pairs two delimiters of one processor and GM.Inl.findOpener is already the search for both.
 
   ENCODING. GM.Inl.Node (GM.Model.Inlines, not editable in this package) has no Strikethrough constructor. A Strikethrough
-  node with children `ks` is represented as `.emphasis 0 ks`: the emphasis processor only ever builds levels 1 and 2
-  (`consume ≥ 1` is checked in closerStep), and every function of the inline model that walks the tree treats
-  `.emphasis _ ks` exactly as Go's generic child walk treats any node with children (containsLink, hasLabel, closeLabels).
-  GM.ConvertX.inlineTreeX decodes level 0 into the renderer's `.strikethrough`.
+  node with children `ks`, made by a match that consumed `consume` (1 or 2) tildes, is represented as
+  `.emphasis (-2 - consume) ks` (level −3 or −4): the emphasis processor only ever builds levels 1 and 2 (`consume ≥ 1` is
+  checked in closerStep), and every function of the inline model that walks the tree treats `.emphasis _ ks` exactly as Go's
+  generic child walk treats any node with children (containsLink, hasLabel, closeLabels). GM.ConvertX.inlineTreeX decodes
+  the two levels into the renderer's `.strikethrough`. (Keeping `consume` in the representation makes the generalised
+  ProcessDelimiters the default one up to a relabelling of levels: GM.Proof.ConvertXRelv.)
 
   With the flag `strike = false` every definition here is the one of GM.Model.Inlines / InlinesParsers
   (GM.Proof.ConvertX: `processDelimitersG_false`, `parseLinkG_default`). Core Lean only.
@@ -29,8 +31,8 @@ import GM.Model.InlinesLoopX
 namespace GM.Inl
 open GM GM.Text
 
-/-- the representation of `ast.NewStrikethrough()` with the given children -/
-def strikeNode (kids : List Node) : Node := .emphasis 0 kids
+/-- the representation of `ast.NewStrikethrough()` with the given children, made by a match of `consume` tildes -/
+def strikeNode (consume : Int) (kids : List Node) : Node := .emphasis (-2 - consume) kids
 
 /-- ScanDelimiter(line, before, 1, processor) for a processor with the given `IsDelimiter` (delimiter.go:114-151) -/
 def scanDelimiterP (isDelim : UInt8 → Bool) (env : Env) (line : Bytes) (before : Nat) : Except Panic (Option Delim) :=
@@ -79,7 +81,7 @@ def strikeParser : XParser := { triggers := [126], parse := parseStrike }
 /-- `opener.Processor.OnMatch(consume)` with the moved children: the processor is the one of the opener's `Char`;
     `strike` = the strikethrough parser is registered (without it no `~` delimiter exists) -/
 def onMatch (strike : Bool) (od : Delim) (consume : Int) (kids : List Node) : Node :=
-  if strike && isStrikeDelim od.char then strikeNode kids else .emphasis consume kids
+  if strike && isStrikeDelim od.char then strikeNode consume kids else .emphasis consume kids
 
 /-- GM.Inl.closerStep with `OnMatch` dispatched on the opener's processor -/
 def closerStepG (strike : Bool) (bottom : Bottom) (pre : List Node) (cid : Nat) (cd : Delim) (post : List Node) : CStep :=
